@@ -151,6 +151,21 @@ class Driver(object):
                         out.append((ch, pbody.ContentBody(body[half:])))
         return out
 
+    def interleave(self, rnd, frames):
+        """Frames of different channels may interleave freely on the wire; only the order
+        within one channel is fixed."""
+        by = {}
+        for c, f in frames:
+            by.setdefault(c, []).append((c, f))
+        queues = [q for q in by.values()]
+        out = []
+        while queues:
+            q = rnd.choice(queues)
+            out.append(q.pop(0))
+            if not q:
+                queues.remove(q)
+        return out
+
     def corpus_cases(self):
         hb = pheartbeat.Heartbeat()
         blocked = spec.Connection.Blocked(reason='x')
@@ -183,6 +198,8 @@ class Driver(object):
         for _ in range(nrand):
             frames = self.gen_frames(rnd, rnd.randrange(1, 7),
                                      small=rnd.random() < 0.8)
+            if rnd.random() < 0.5:
+                frames = self.interleave(rnd, frames)
             stream = b''.join(pframe.marshal(f, c) for c, f in frames)
             tail = b''
             if rnd.random() < 0.3:
